@@ -509,6 +509,8 @@ class Exec:
             return _Builtin(name)
         if name in ("math",):
             return ModRef("math")
+        if name in ("copy",) and name in getattr(module, "plain_imports", ("copy",)):
+            return Opaque("import copy")   # copy.deepcopy(...) is then a call by (assumed) contract: uses["opaque.deepcopy"]
         if name in source.class_table():
             return ClassRef(name)
         raise OutOfSubset(f"unresolved name {name}")
